@@ -26,6 +26,8 @@ class Iso:
         self.bwd: dict[int, object] = {}
         self.keep = []
         self.compare_initializer_order = compare_initializer_order
+        self.compare_device_configurations = False
+        self.model_cfgs = ((), ())
 
     def d(self, path, msg):
         if len(self.diffs) < 25:
@@ -224,6 +226,40 @@ class Iso:
         for k in ka:
             if k in b.attributes:
                 self.attr(f"{path}.attr[{k}]", a.attributes[k], b.attributes[k])
+        if self.compare_device_configurations:
+            self.node_devcfg(path + ".device_configurations", a, b)
+
+    def node_devcfg(self, path, a, b):
+        da, db = tuple(a.device_configurations or ()), tuple(b.device_configurations or ())
+        if len(da) != len(db):
+            self.d(path, f"#node device configurations {len(da)} != {len(db)}")
+            return
+        for i, (x, y) in enumerate(zip(da, db)):
+            p = f"{path}[{i}]"
+            cx, cy = x.configuration, y.configuration
+            if (cx is None) != (cy is None) or (cx is not None and (cx.name, cx.num_devices, tuple(cx.device_names)) !=
+                                               (cy.name, cy.num_devices, tuple(cy.device_names))):
+                self.d(p + ".configuration", f"{cx!r} != {cy!r}")
+            elif cx is not None:
+                # identity: the node must refer to the configuration object registered on its own model
+                ia = next((j for j, c in enumerate(self.model_cfgs[0]) if c is cx), None)
+                ib = next((j for j, c in enumerate(self.model_cfgs[1]) if c is cy), None)
+                if ia != ib:
+                    self.d(p + ".configuration", f"registered position on the model {ia} != {ib} (None = not the model's object)")
+            if x.pipeline_stage != y.pipeline_stage:
+                self.d(p + ".pipeline_stage", f"{x.pipeline_stage!r} != {y.pipeline_stage!r}")
+            if len(x.sharding_specs) != len(y.sharding_specs):
+                self.d(p, f"#sharding specs {len(x.sharding_specs)} != {len(y.sharding_specs)}")
+            for j, (sx, sy) in enumerate(zip(x.sharding_specs, y.sharding_specs)):
+                q = f"{p}.spec[{j}]"
+                if sx.value is not None or sy.value is not None:
+                    self.match(q + ".value", sx.value, sy.value)
+                if tuple(sx.device) != tuple(sy.device):
+                    self.d(q + ".device", f"{sx.device!r} != {sy.device!r}")
+                if repr(sx.index_to_device_group_map) != repr(sy.index_to_device_group_map):
+                    self.d(q + ".index_to_device_group_map", "differs")
+                if repr(sx.sharded_dims) != repr(sy.sharded_dims):
+                    self.d(q + ".sharded_dims", f"{sx.sharded_dims!r} != {sy.sharded_dims!r}")
 
     def graph(self, path, a, b, top=True, function_body=False):
         if not function_body:  # FunctionProto has no field for the name of the body graph
@@ -271,6 +307,8 @@ class Iso:
         self.graph(path + ".body", a.graph, b.graph, top=True, function_body=True)
 
     def model(self, a, b):
+        self.compare_device_configurations = (a.ir_version or 0) >= 11
+        self.model_cfgs = (tuple(a.device_configurations or ()), tuple(b.device_configurations or ()))
         self.scalar("model.ir_version", a.ir_version, b.ir_version, default=0)
         self.scalar("model.producer_name", a.producer_name, b.producer_name)
         self.scalar("model.producer_version", a.producer_version, b.producer_version)
